@@ -235,6 +235,7 @@ func PatchLinker(goRoot, goVersion, cacheDir, tempDir string) (string, func(), e
 		return "", nil, err
 	}
 
+	verifEvent("link-lock-acquired")
 	// If build is successful, mutex unlocking must be on the caller's side
 	successBuild := false
 	defer func() {
@@ -247,8 +248,10 @@ func PatchLinker(goRoot, goVersion, cacheDir, tempDir string) (string, func(), e
 	if err != nil {
 		return "", nil, err
 	}
+	verifEvent("link-version-checked", "stamp_ok", isCorrectVer)
 	if isCorrectVer && fileExists(outputLinkPath) {
 		successBuild = true
+		verifEvent("link-reuse")
 		return outputLinkPath, unlock, nil
 	}
 
@@ -259,12 +262,15 @@ func PatchLinker(goRoot, goVersion, cacheDir, tempDir string) (string, func(), e
 	if err != nil {
 		return "", nil, err
 	}
+	verifEvent("link-build-start")
 	if err := buildLinker(goRoot, workingDir, overlay, outputLinkPath); err != nil {
 		return "", nil, err
 	}
+	verifEvent("link-build-done")
 	if err := writeVersion(outputLinkPath, goVersion, patchesVer); err != nil {
 		return "", nil, err
 	}
+	verifEvent("link-stamp-written")
 	successBuild = true
 	return outputLinkPath, unlock, nil
 }
